@@ -302,6 +302,11 @@ class CompositeFrontend(ConstrainedFrontend):
                 s.add(unsure)
                 self._store_child(s)
 
+        if self._unsat and all(c is not false() for c in self.constraints):
+            # the concrete False lives in a flag, not in a child: keep it among the constraints, so that solvers derived
+            # from this one's constraints (combine, merge) are unsatisfiable as well
+            child_added = [*child_added, false()]
+
         return super()._add(child_added)
 
     #
@@ -476,6 +481,10 @@ class CompositeFrontend(ConstrainedFrontend):
         return True, merged
 
     def merge(self, others, merge_conditions, common_ancestor=None):
+        if self._unsat or any(getattr(o, "_unsat", False) for o in others):
+            # a concrete False is not in any child solver: merge the constraint lists, which contain it
+            return ConstrainedFrontend.merge(self, others, merge_conditions, common_ancestor=common_ancestor)
+
         if common_ancestor is not None:
             return self._merge_with_ancestor(common_ancestor, merge_conditions)
 
@@ -522,4 +531,9 @@ class CompositeFrontend(ConstrainedFrontend):
         return True, merged
 
     def split(self):
-        return [s.branch() for s in self._solver_list]
+        parts = [s.branch() for s in self._solver_list]
+        if self._unsat:
+            unsat_part = self._template_frontend.blank_copy()
+            unsat_part.add([false()])
+            parts.append(unsat_part)
+        return parts
